@@ -25,7 +25,7 @@ use crate::{
     },
 };
 
-fn alphabet() -> Vec<Sym> {
+pub fn alphabet() -> Vec<Sym> {
     let mut v = cfgspace::alphabet();
     // worker-only / runtime verbs
     let extra: Vec<(&str, RequestType)> = vec![
